@@ -2,7 +2,7 @@
 # matrix.sh <out.tsv> [seed dirs...] : run every quick check against every seeded change, each applied to a scratch copy of /repo
 # (RP_REPO), so that /repo itself is not touched.  One line per (seed, property): rc and the VIOLATION line.
 out="$1"; shift
-cd /verif
+cd "$(dirname "$0")/.."; VROOT=$(pwd)
 scratch=/tmp/rp-matrix-$$
 for d in "$@"; do
   rm -rf $scratch; mkdir -p $scratch
@@ -14,4 +14,4 @@ for d in "$@"; do
     echo -e "$(basename $(dirname $d))/$(basename $d)\t$p\t$rc\t$(echo "$o" | grep -E 'VIOLATION|INTERNAL' | head -1 | sed 's/replay=[^ ]*//')" >> $out
   done
 done
-rm -rf $scratch /verif/build/cargo-target-* /verif/build/harness-*
+rm -rf $scratch $VROOT/build/cargo-target-* $VROOT/build/harness-*
